@@ -262,7 +262,7 @@ class Ctx:
             raise ToolError("trace validation timed out: " + name)
         text = out
         what = None
-        m = re.search(r'"TRACE-REJECTED", (\d+), (.*)>>', text)
+        m = re.search(r'"TRACE-REJECTED",\s*(\d+),\s*(.*?)>>\s+FALSE', text, re.S)
         minv = re.search(r"Invariant (\S+) is violated", text)
         if minv:
             what = "recorded trace violates %s of %s" % (minv.group(1), module)
@@ -270,7 +270,8 @@ class Ctx:
             if ml:
                 what += " at event %s" % ml[-1]
         elif m:
-            what = "recorded trace rejected by %s at event %s: %s" % (module, m.group(1), m.group(2)[:300])
+            what = "recorded trace rejected by %s at event %s: %s" % (module, m.group(1),
+                                                                       " ".join(m.group(2).split())[:300])
         elif "Model checking completed. No error has been found." not in text:
             raise ToolError("trace validation of %s failed:\n%s" % (name, "\n".join(text.splitlines()[-25:])))
         gen = 0
